@@ -84,21 +84,12 @@ def wif(E, R, compressed, testnet):
 B58 = 58
 
 
-def wif_lemma(E, R, prefix, compressed):
-    """first Base58 digit and length of the WIF string, for all k in [1, n-1] and all checksums:
-    V = prefix*256^(L-1) + k*256^(t+4) + [01]*256^4 + checksum lies in [d_lo*58^(m-1), (d_hi+1)*58^(m-1))"""
+def wif_lemma(E, R, prefix, plen):
+    """first Base58 character and length of WIF strings and of addresses (rows of common.FIRST_CHAR used by the
+    Base58Check summary), for all payload tails and all checksums"""
     if not E.symbolic:
         return "native"
-    alpha = "123456789ABCDEFGHJKLMNPQRSTUVWXYZabcdefghijkmnopqrstuvwxyz"
-    k = E.int("k", 1, N - 1)
-    cs = E.int("cs", 0, 2 ** 32 - 1)
-    t = 1 if compressed else 0
-    V = prefix * 256 ** (36 + t) + k * 256 ** (4 + t) + (256 ** 4 if compressed else 0) + cs
-    chars, m = cm.FIRST_CHAR[(prefix, 34 if compressed else 33)]
-    lo = min(alpha.index(c) for c in chars)
-    hi = max(alpha.index(c) for c in chars)
-    E.check(V >= lo * B58 ** (m - 1), "lemma: leading Base58 digit is at least the first listed character")
-    E.check(V < (hi + 1) * B58 ** (m - 1), "lemma: leading Base58 digit is at most the last listed character; length is m")
+    cm.b58_lemma(E, bytes.fromhex(prefix), plen)
     return "ok"
 
 
@@ -149,8 +140,10 @@ def cases(tier):
         for t in (False, True):
             cs.append(Case("wif[compressed=%s,testnet=%s]" % (comp, t), "wif", dict(compressed=comp, testnet=t),
                            need=("from_wif(wif(k)).k == ser256(k)",)))
-            cs.append(Case("wif_lemma[%s,%s]" % (comp, t), "wif_lemma", dict(prefix=0xef if t else 0x80, compressed=comp),
-                           need=("lemma: leading Base58 digit is at least the first listed character",)))
+
+    for (prefix, plen) in sorted(cm.FIRST_CHAR):
+        if plen != 78:
+            cs.append(Case("b58_lemma[%s,%d]" % (prefix.hex(), plen), "wif_lemma", dict(prefix=prefix.hex(), plen=plen)))
     for comp in (True, False):
         cs.append(Case("sec_roundtrip[%s]" % comp, "sec_roundtrip", dict(compressed=comp), need=("parse(sec(c)).sec(c) == sec(c)",)))
     for n in (0, 1, 32, 33, 34, 64, 65, 66):
